@@ -187,7 +187,9 @@ def check(case, ctx):
         if j < 0:
             raise Violation('R1:snippet-not-in-complete', 'second body; fmt=%s source=%r' % (fmt, M + B2))
         # blank-line padding between body and wrapper depends on the last/first block; only the wrapper text itself is compared
-        if comp[:idx].rstrip() != comp2[:j].rstrip() or comp[idx + len(core):].lstrip() != comp2[j + len(core2):].lstrip():
+        # (a snippet that also occurs inside the wrapper -- a one-character body, a word of the title -- does not say where the body sits: the
+        # split is only meaningful when the snippet occurs once)
+        if core and core2 and comp.count(core) == 1 and comp2.count(core2) == 1 and (comp[:idx].rstrip() != comp2[:j].rstrip() or comp[idx + len(core):].lstrip() != comp2[j + len(core2):].lstrip()):
             raise Violation('R1:wrapper-depends-on-body', 'fmt=%s meta=%r\nprefix1=%r\nprefix2=%r\nsuffix1=%r\nsuffix2=%r' % (fmt, M, comp[:idx][-300:], comp2[:j][-300:], comp[idx + len(core):][:300], comp2[j + len(core2):][:300]))
         ctx.cls('R1b_checked')
     # R4a: language keys leave a smart-less, note-free snippet unchanged
